@@ -90,6 +90,24 @@ class DFA:
             return None
         return T
 
+    def enumerate_all(self, limit=5000, maxlen=200):
+        """all accepted strings of a DFA with a finite language (raises when there are more than `limit`)"""
+        out = []
+        st = [(self.start, ())]
+        while st:
+            S, w = st.pop()
+            if len(w) > maxlen:
+                raise RuntimeError("language not finite")
+            if S in self.accepting:
+                out.append(list(w))
+                if len(out) > limit:
+                    raise RuntimeError("too many strings")
+            for l in self.trans.get(S, {}):
+                T = self.step(S, l)
+                if T is not None:
+                    st.append((T, w + (l,)))
+        return out
+
     def enumerate_strings(self, limit=20, maxlen=40):
         """a few accepted strings (shortest first), for evidence samples"""
         out = []
